@@ -361,6 +361,7 @@ func checkC14(c *Check) {
 		c.Ob("R6", "the hostnames released are the hostnames reserved", run.Pos(), resArg != "" && resArg == relArg, "reserved "+short(resArg)+" but released "+short(relArg))
 	}
 	c.hostnameNormalisation()
+	c.inventoryClientRules("R6")
 	// subscribe-then-snapshot: a lease-closed event published while the start-up snapshot of deployed leases is being
 	// taken must already be buffered by the subscription, or the manager created from the snapshot is never told
 	{
